@@ -35,6 +35,9 @@ var c15Idents = []c15Ident{
 	{"063000_L..N01", "L", gtfs.DirectionID_True, c15S1.Add(-6*time.Hour - 30*time.Minute), 6*time.Hour + 30*time.Minute},
 	{"070000_L..N01", "LX", gtfs.DirectionID_False, c15S1.Add(-7 * time.Hour), 7 * time.Hour},
 	{"063000_6..S02", "6", gtfs.DirectionID_Unspecified, c15S1.Add(-5*time.Hour - 30*time.Minute), 6*time.Hour + 30*time.Minute},
+	// the same trip id and start date as T1 but another start time (a second run of a
+	// frequency-based trip): another start instant, hence another entry
+	{"063000_L..N01", "L", gtfs.DirectionID_True, c15S1.Add(-6*time.Hour - 30*time.Minute), 6*time.Hour + 45*time.Minute},
 }
 
 func (i c15Ident) start() time.Time { return i.startDate.Add(i.startTime) }
@@ -56,7 +59,7 @@ func (e *c15Entry) String() string {
 		fmtTime(e.start), e.vehicle, fmtTime(e.lastObserved), fmtTimePtr(e.markedPast), e.numUpdates, fmtTime(e.lastObserved), fmtTimePtr(e.markedPast))
 }
 
-func c15Feed(k int, states [3]int) *gtfs.Realtime {
+func c15Feed(k int, states [4]int) *gtfs.Realtime {
 	t := c14FeedTime(k)
 	f := &gtfs.Realtime{CreatedAt: t}
 	for i, st := range states {
@@ -77,7 +80,7 @@ func c15Feed(k int, states [3]int) *gtfs.Realtime {
 }
 
 // c15Reference is the accountant: it processes the history and returns all entries by UID.
-func c15Reference(history [][3]int) map[string]*c15Entry {
+func c15Reference(history [][4]int) map[string]*c15Entry {
 	entries := map[string]*c15Entry{}
 	for k, states := range history {
 		t := c14FeedTime(k)
@@ -131,20 +134,27 @@ var c15Windows = []c15Window{
 	{"starts-1s-after-S1", c15S1.Add(time.Second), farFuture},
 }
 
-func c15Harness(maxLen int) Harness {
+func c15Harness(maxLen int, fourth bool) Harness {
 	return func(c *Ctx) {
 		n := 1 + c.Free("history_length", maxLen)
-		var history [][3]int
+		var history [][4]int
 		var names []string
 		for k := 0; k < n; k++ {
-			sym := c.Free(fmt.Sprintf("feed[%d]", k), 64)
-			st := [3]int{sym % 4, (sym / 4) % 4, sym / 16}
+			nsym := 64
+			if fourth {
+				nsym = 192 // T4 in {absent, unassigned, vehicle v1}
+			}
+			sym := c.Free(fmt.Sprintf("feed[%d]", k), nsym)
+			st := [4]int{sym % 4, (sym / 4) % 4, (sym / 16) % 4, sym / 64}
+			if st[3] == 2 {
+				st[3] = 2 // vehicle v1
+			}
 			history = append(history, st)
-			names = append(names, fmt.Sprintf("%d%d%d", st[0], st[1], st[2]))
+			names = append(names, fmt.Sprintf("%d%d%d%d", st[0], st[1], st[2], st[3]))
 		}
 		hist := strings.Join(names, " ")
 		c.Input(hash64(hist), n >= 2, func() string {
-			return "history (per feed: state of T1,T2,T3; 0 absent, 1 unassigned, 2 vehicle v1, 3 vehicle v2): " + hist
+			return "history (per feed: state of T1,T2,T3,T4; 0 absent, 1 unassigned, 2 vehicle v1, 3 vehicle v2): " + hist
 		})
 		var feeds []*gtfs.Realtime
 		for k, st := range history {
@@ -273,7 +283,7 @@ func init() {
 	register(&Check{
 		ID:    "C15",
 		Level: "model_checking",
-		Rule: "three trip identities (T1, T2 share start instant and id suffix -> one UID; T3 other suffix and start) each per feed in {absent, unassigned, vehicle v1, vehicle v2} = 64 feed symbols; ALL histories of <= 3 feeds (thorough <= 4) x 5 windows; " +
+		Rule: "three trip identities (T1, T2 share start instant and id suffix -> one UID; T3 other suffix and start) each per feed in {absent, unassigned, vehicle v1, vehicle v2} = 64 feed symbols; ALL histories of <= 3 feeds (thorough <= 4) x 5 windows; plus a fourth identity T4 (same trip id and start date as T1, another start time) in {absent, unassigned, v1}: 192 symbols, ALL histories of <= 2 (thorough 3) feeds x 5 windows; " +
 			"non-trivial = distinct histories of >= 2 feeds; oracle = reference accountant compared field by field (UID, id fields, vehicle, last observed, marked past, update count, stop-level marks), order and uniqueness included",
 		Assumptions: []string{"feeds list their trips in identifier order, as ParseRealtime produces them", "feed times are 60 s apart starting at a fixed instant"},
 		Scenarios: func(tier string) []*Scenario {
@@ -281,7 +291,8 @@ func init() {
 			if tier == "thorough" {
 				n = 4
 			}
-			return []*Scenario{{Name: fmt.Sprintf("all-histories<=%d", n), Bound: -1, Run: c15Harness(n)}}
+			return []*Scenario{{Name: fmt.Sprintf("all-histories<=%d", n), Bound: -1, Run: c15Harness(n, false)},
+				{Name: fmt.Sprintf("four-identities<=%d", n-1), Bound: -1, Run: c15Harness(n-1, true)}}
 		},
 	})
 }
